@@ -148,9 +148,15 @@ fn check_validators(r: &mut Rng, rep: &mut Report) {
     rep.evaluations += 1;
     let res = catch(|| {
         let a = cpred::check_contract(&contract.predicates).is_ok();
-        let b = cpred::check_signed_contract(&signed).is_ok();
-        let _ = essential_sign::contract::recover(&signed);
-        let _ = essential_sign::contract::verify(&signed);
+        // signature recovery is C code (secp256k1): Miri cannot execute it
+        let b = if cfg!(miri) {
+            false
+        } else {
+            let b = cpred::check_signed_contract(&signed).is_ok();
+            let _ = essential_sign::contract::recover(&signed);
+            let _ = essential_sign::contract::verify(&signed);
+            b
+        };
         (a, b)
     });
     match res {
